@@ -523,14 +523,14 @@ pub fn explore(rep: &mut Report, sub: &Subject, cfg: &EnvCfg) {
             // A panic with everything delivered at once is caused by the
             // content (or the mere use) of the input: C15 territory. C08 also
             // says "never a panic".
-            let owner = if matches!(prop, "C15" | "C16" | "C19") { prop } else { "C08" };
+            let owner = if matches!(prop, "C15" | "C16" | "C19" | "C14" | "C11") { prop } else { "C08" };
             fail(rep, owner, "panic-one-shot", format!("work() panicked in the one-shot run: {p}"), &ref_start, &one_shot);
             return;
         }
     }
-    if prop == "C16" {
+    if prop == "C16" || prop == "C14" {
         if let Some((clause, msg)) = source_oracle(sub, &reference) {
-            fail(rep, "C16", &clause, msg, &ref_start, &one_shot);
+            fail(rep, prop, &clause, msg, &ref_start, &one_shot);
         }
     }
     if prop == "C10" {
@@ -588,6 +588,8 @@ pub fn explore(rep: &mut Report, sub: &Subject, cfg: &EnvCfg) {
             distinct_outcomes.insert(fnv(format!("{verdicts:?}").as_bytes()));
             let r = match prop {
                 "C16" => source_oracle(sub, &e).map(|(c, m)| ("C16", c, m)),
+                "C14" => source_oracle(sub, &e).map(|(c, m)| ("C14", c, m)),
+                "C11" => chunking_oracle(&e, &reference).map(|(c, m)| ("C11", c, m)),
                 "C19" => {
                     let mut r = chunking_oracle(&e, &reference).map(|(c, m)| ("C19", c, m));
                     if r.is_none() && sub.sync_check {
@@ -680,11 +682,20 @@ pub fn replay_one(rep: &mut Report, sub: &Subject, prop: &'static str, start: &S
             }
         }
     }
-    if prop == "C16" {
+    if prop == "C16" || prop == "C14" {
         out.clear();
         if let Some((c, m)) = source_oracle(sub, &e) {
-            out.push(("C16".into(), c, m));
+            out.push((prop.to_string(), c, m));
         }
+    }
+    if prop == "C11" {
+        let mut v: Vec<(String, String, String)> = vec![];
+        for (p, c, m) in out.drain(..) {
+            if p == "C08" {
+                v.push(("C11".into(), c, m));
+            }
+        }
+        out = v;
     }
     if prop == "C19" {
         let mut v: Vec<(String, String, String)> = vec![];
